@@ -29,6 +29,7 @@ import (
 	"strconv"
 	"strings"
 	"sync"
+	"sync/atomic"
 	"time"
 
 	httpscenario "github.com/yandex/pandora/components/guns/http_scenario"
@@ -667,6 +668,27 @@ func runGun(kv map[string]string) (obs string) {
 			}
 			guns[i] = g
 		}
+		// ub=1: a calibrator sleeps 20 ms over and over while the case runs; the largest oversleep it saw bounds what the
+		// scheduler did to sleeping goroutines during the case (see pauseTooLong)
+		var calMax atomic.Int64
+		if kv["ub"] == "1" {
+			stopCal := make(chan struct{})
+			defer close(stopCal)
+			go func() {
+				for {
+					select {
+					case <-stopCal:
+						return
+					default:
+					}
+					t0 := time.Now()
+					time.Sleep(20 * time.Millisecond)
+					if over := int64(time.Since(t0) - 20*time.Millisecond); over > calMax.Load() {
+						calMax.Store(over)
+					}
+				}
+			}()
+		}
 		var wg sync.WaitGroup
 		panics := make([]string, nInst)
 		for i := range insts {
@@ -685,7 +707,7 @@ func runGun(kv map[string]string) (obs string) {
 				defer func() {
 					if kv["ub"] == "1" {
 						in.mu.Lock()
-						for _, k := range pauseTooLong(gapLog, sleepsOf) {
+						for _, k := range pauseTooLong(gapLog, sleepsOf, time.Duration(calMax.Load())) {
 							in.events = append(in.events, "V~long~"+strconv.Itoa(k))
 						}
 						in.mu.Unlock()
@@ -811,12 +833,15 @@ func runDecoyPool(kv map[string]string, csvFile, jsonFile string, seq int64) {
 
 // pauseTooLong (round 4, cases with ub=1: one instance, one scenario, every shot successful): the steps whose pause was
 // LONGER than stated. gaps[shot][k] = time from the receipt of request k to the receipt of the next one (or the end of
-// the shot). The overhead of a step at the time of the case is calibrated by the steps WITHOUT a stated pause of the same
-// shots (o = their largest gap); a step with a stated pause P >= 40 ms is reported only when in EVERY one of at least three
-// shots its gap exceeded P + 4*o + 50 ms — a loaded machine inflates o and with it the bound (then nothing is reported),
-// a gun that sleeps twice the stated time, or sleeps in a coarser unit, exceeds it on every shot.
-func pauseTooLong(gaps [][]time.Duration, sleeps []time.Duration) []int {
-	if len(gaps) < 3 {
+// the shot). Two calibrations taken during the same case: o = the largest gap of the steps WITHOUT a stated pause (the
+// overhead of a step), os = the largest oversleep of a goroutine of the harness that sleeps 20 ms over and over (what the
+// scheduler does to sleepers). A step with a stated pause P >= 40 ms is reported only when in EVERY one of at least four
+// shots its gap exceeded 1.5*P + 4*o + 3*os + 30 ms. A loaded machine inflates o and os and with them the bound (then
+// nothing is reported — the first version, without os and with P + 4*o + 50 ms over three shots, gave one false alarm in
+// 160 cases at load 170); a gun that sleeps twice the stated time, or in a coarser unit, exceeds it on every shot of a
+// calm machine.
+func pauseTooLong(gaps [][]time.Duration, sleeps []time.Duration, os time.Duration) []int {
+	if len(gaps) < 4 {
 		return nil
 	}
 	var o time.Duration
@@ -848,7 +873,7 @@ func pauseTooLong(gaps [][]time.Duration, sleeps []time.Duration) []int {
 				min = g[k]
 			}
 		}
-		if min > p+4*o+50*time.Millisecond {
+		if min > p+p/2+4*o+3*os+30*time.Millisecond {
 			out = append(out, k)
 		}
 	}
